@@ -333,9 +333,27 @@ def _addr_scalars(body_lines):
     return taken & declared
 
 
+def _typed_str_assignments(body_lines, out):
+    """names declared `cdef str NAME`: plain assignments to them go through _cstr (Cython's implicit type test)"""
+    names = set()
+    for l in body_lines:
+        m = re.match(r'^\s*cdef\s+str\s+(\w+)\s*(?:=.*)?$', strip_comment(l))
+        if m:
+            names.add(m.group(1))
+    if not names:
+        return out
+    res = []
+    for ln in out:
+        m = re.match(r'^(\s*)(\w+)\s*=(?!=)\s*(.+)$', ln)
+        if m and m.group(2) in names and not m.group(3).lstrip().startswith(('"', "'", 'f"', "f'")):
+            ln = '%s%s = _cstr(%s)' % (m.group(1), m.group(2), m.group(3))
+        res.append(ln)
+    return res
+
+
 def translit_body(body_lines):
     cells = _addr_scalars(body_lines)
-    out = _translit_body(body_lines, cells)
+    out = _typed_str_assignments(body_lines, _translit_body(body_lines, cells))
     if not cells:
         return out
     res = []
@@ -411,7 +429,29 @@ def _cint(v):
     return int(v) if isinstance(v, float) else v
 
 
+_VIEWCAST = re.compile(r'<\s*' + CTYPE + r'\s*\[\s*:\s*([^\]]+?)\s*\]\s*>\s*([A-Za-z_][\w\.]*)')
+
+
+def _cstr(v):
+    """assignment to a `cdef str` variable: Cython raises TypeError for anything but str / None"""
+    if v is None or isinstance(v, str):
+        return v
+    raise TypeError('Expected str, got %s' % type(v).__name__)
+
+
+def _memview_cast(ptr, n):
+    """`<T[:n]> ptr`: Cython raises ValueError for a non-positive extent"""
+    try:
+        k = int(n) if isinstance(n, (int, float)) else int(n.const())
+    except Exception:
+        return ptr
+    if k <= 0:
+        raise ValueError('Invalid shape in axis 0: %d.' % k)
+    return ptr
+
+
 def _post(ln):
+    ln = _VIEWCAST.sub(lambda m: '_memview_cast(%s, %s)' % (m.group(2), m.group(1)), ln)
     ln = _INTCAST.sub(lambda m: '_cint(%s)' % m.group(1), ln)
     ln = _CAST.sub('', ln)
     ln = _conv_addr(ln)
@@ -438,4 +478,4 @@ def translit_function(src, qual, newname=None):
     return code, span
 
 
-RUNTIME = {'CArr': CArr, 'Ptr': Ptr, 'Ref': Ref, 'addr': addr, 'ExtentError': ExtentError, 'prange': range, '_cint': _cint}
+RUNTIME = {'CArr': CArr, 'Ptr': Ptr, 'Ref': Ref, 'addr': addr, 'ExtentError': ExtentError, 'prange': range, '_cint': _cint, '_cstr': _cstr, '_memview_cast': _memview_cast}
